@@ -405,7 +405,8 @@ def m_host_value_contradicts(rng, d):
     v = d["sensitive_hosts"][k]
     # relative offsets and absolute values (the default host value 0 is a contradiction too)
     # ... and values that differ only a little (far more than the 1e-9 of math.isclose, though)
-    near = [float(v) * (1 + 4e-6), float(v) * (1 - 3e-6), float(v) + 2.0 ** -12]
+    # -- but never closer than the model's resolution of host values (1/64): below it the model reads "equal"
+    near = [float(v) + 2.0 ** -6, float(v) - 2.0 ** -6, float(v) + 2.0 ** -5]
     d["host_configurations"][a]["value"] = rng.choice([v + 1, v - 1, v + 0.5, v + 100, 0, 0.0, -v, 0, v * 2] + near)
     return d
 
